@@ -93,7 +93,7 @@ impl SignatureConverter<'_> {
 
         if matches!(self.impl_receiver_kind, ImplReceiverKind::DynamicImpl) {
             sig.inputs
-                .insert(1, self.gen_impl_receiver(Span::call_site()));
+                .insert(1, self.gen_impl_receiver(Span::call_site(), None));
         }
     }
 
@@ -106,7 +106,9 @@ impl SignatureConverter<'_> {
             ImplReceiverKind::SelfRef | ImplReceiverKind::DynamicImpl => {
                 self.gen_self_receiver(span, reference)
             }
-            ImplReceiverKind::StaticImpl => self.gen_impl_receiver(span),
+            ImplReceiverKind::StaticImpl => {
+                self.gen_impl_receiver(span, reference.and_then(|(_, lifetime)| lifetime))
+            }
         }
     }
 
@@ -130,10 +132,10 @@ impl SignatureConverter<'_> {
         })
     }
 
-    fn gen_impl_receiver(&self, _: Span) -> syn::FnArg {
+    fn gen_impl_receiver(&self, _: Span, lifetime: Option<syn::Lifetime>) -> syn::FnArg {
         let entrait = &self.crate_idents.entrait;
         syn::parse_quote! {
-            __impl: &::#entrait::Impl<EntraitT>
+            __impl: & #lifetime ::#entrait::Impl<EntraitT>
         }
     }
 
